@@ -166,7 +166,21 @@ def iter5(eng, out):
             if (d.startswith("core::slice::") and m in ("contains", "iter", "binary_search", "starts_with")) or (d.startswith("alloc::vec::Vec::<T") and m in ("contains", "remove", "insert", "retain", "dedup", "drain", "sort", "sort_unstable")):
                 if m in ("contains", "remove", "insert", "retain", "dedup", "sort", "sort_unstable", "binary_search"):
                     out.violate("ITER-5", "linear-scan-in-group-loop:%s" % m, "`%s` (linear in the collection) is called inside a loop over %s" % (d, drivers[h][2]), where_of(g, b), entry=eng.name)
+    # inside the trace / teardown loops over the group, a scan of one link table per entry of another
+    # link table is quadratic in the tables' sizes
+    tables = [h for h, d in drivers.items() if d[0] == "table"]
+    for h in tables:
+        for h2 in tables:
+            if h2 != h and h2 in loops[h] and loops[h2] < loops[h] and any(h in loops[g_] for g_ in groups):
+                out.violate("ITER-5", "table-scan-per-table-entry", "a loop over %s runs once per entry of %s inside a loop over the group: the work is no longer linear in objects plus adoptions" % (drivers[h2][2], drivers[h][2]), where_of(g, drivers[h2][1]), entry=eng.name)
     for (kind, b, si), ev in eng.event_index.items():
+        if kind == "iter" and ev.op in SEARCH_ADAPTORS + ("count", "sum", "fold", "collect", "last", "nth", "product", "max", "min"):
+            src0 = iter_source(ev.recv)
+            if src0 is not None and src0[0] == "table":
+                for h in tables:
+                    if b in loops[h] and any(h in loops[g_] for g_ in groups):
+                        out.violate("ITER-5", "table-scan-per-table-entry", "`%s` over the link table of %s runs once per entry of %s inside a loop over the group: the work is no longer linear in objects plus adoptions" % (
+                            ev.op, show(src0[1])[:50], drivers[h][2]), where_of(g, b), entry=eng.name)
         if kind == "iter" and ev.op in SEARCH_ADAPTORS + ("count", "sum", "fold", "collect", "last", "nth"):
             src = iter_source(ev.recv)
             if src is not None and src[0] == "map":
@@ -264,6 +278,12 @@ def eff4(program, out):
         if a is None:
             raise KeyError("vocabulary: type %s not found" % adt)
         have = {f["name"]: f for f in a["fields"]}
+        # counters may live in a nested header struct of the crate
+        for f in a["fields"]:
+            sub_adt = facts.adts.get("cactusref::" + f["ty"].split("<")[0]) if not f["ty"].startswith("cactusref::") else facts.adts.get(f["ty"].split("<")[0])
+            if sub_adt is not None and sub_adt.get("kind") == "Struct":
+                for g in sub_adt["fields"]:
+                    have.setdefault(g["name"], g)
         for fname in fields:
             if fname not in have:
                 raise KeyError("vocabulary: field %s.%s not found" % (adt, fname))
